@@ -47,6 +47,10 @@ LEVEL_NOTE = (
     'inputs excluded by the driver\'s sens flag).')
 DESIGN_REF = '§4 C01'
 
+# theorems of the integrated pipeline model (Props/X01.lean) that carry this property's theorems to formula TEXTS in a
+# compiled workbook; re-built and audited with this check (harness/common.prepare: soft obligations)
+TRANSPORT = ('XlVerif.Props.X01', ['compile_operator_formula_denote', 'compile_transparent'])
+
 TRUSTED = [
     'Lean 4 kernel; axioms propext, Classical.choice, Quot.sound only',
     'hand-written models lean/XlVerif/Model/Tokenizer.lean, Model/Parser.lean, Model/Value.lean and Model/C01.lean '
